@@ -709,6 +709,123 @@ fn vp_native_connect_refusals() {
     println!("VP-NATIVE connect_refusals cases={}", cases);
 }
 
+// ---------------------------------------------------------------- a proxy that accepts CONNECT and then terminates TLS itself
+/// one exchange as seen by the proxy: a request in the clear (proxied http) or a CONNECT head followed by what came out of the TLS session
+#[derive(Debug, Clone)] struct Hop { connect_head: Option<String>, sni: Option<String>, req: Option<Req>, clear_after_connect: Vec<u8> }
+fn pem_der(pem: &str) -> Vec<u8> {
+    use base64::Engine;
+    let b: String = pem.lines().filter(|l| !l.starts_with("-----")).collect();
+    base64::engine::general_purpose::STANDARD.decode(b.trim()).expect("PEM body")
+}
+/// reads one request (head, then the body its framing announces) from `r`; None when the peer sends nothing usable
+fn read_request<R: Read>(r: &mut R) -> Option<Vec<u8>> {
+    let mut raw = Vec::new(); let mut b = [0u8; 1];
+    while !raw.ends_with(b"\r\n\r\n") { if r.read(&mut b).ok()? == 0 { return None; } raw.push(b[0]); if raw.len() > 1 << 20 { return None; } }
+    let head = String::from_utf8_lossy(&raw).to_ascii_lowercase();
+    let cl = head.lines().find_map(|l| l.strip_prefix("content-length:").and_then(|v| v.trim().parse::<usize>().ok()));
+    if head.lines().any(|l| l.starts_with("transfer-encoding:")) {
+        let start = raw.len();
+        while !(raw[start..].ends_with(b"\r\n0\r\n\r\n") || &raw[start..] == b"0\r\n\r\n") { if r.read(&mut b).ok()? == 0 { break; } raw.push(b[0]); }
+    } else if let Some(n) = cl { let mut body = vec![0u8; n]; r.read_exact(&mut body).ok()?; raw.extend_from_slice(&body); }
+    Some(raw)
+}
+/// `reply(request, tunnelled)` -> full response bytes; plain requests are answered in the clear, CONNECT gets 200 and then a TLS
+/// session (certificate of tests/tools, CN=localhost, expired: clients must waive verification) in which one request is answered
+fn serve_tunnelling_proxy(log: Arc<Mutex<Vec<Hop>>>, reply: impl Fn(&Req, bool) -> Vec<u8> + Send + Sync + 'static) -> u16 {
+    let _ = rustls::crypto::aws_lc_rs::default_provider().install_default();
+    let cert = pem_der(include_str!(concat!(env!("CARGO_MANIFEST_DIR"), "/tests/tools/cert.pem")));
+    let key = pem_der(include_str!(concat!(env!("CARGO_MANIFEST_DIR"), "/tests/tools/key.pem")));
+    let cfg = Arc::new(rustls::ServerConfig::builder().with_no_client_auth()
+        .with_single_cert(vec![rustls::pki_types::CertificateDer::from(cert)], rustls::pki_types::PrivateKeyDer::try_from(key).unwrap()).unwrap());
+    let l = TcpListener::bind("127.0.0.1:0").unwrap();
+    let port = l.local_addr().unwrap().port();
+    let reply = Arc::new(reply);
+    std::thread::spawn(move || {
+        for s in l.incoming() {
+            let mut s: TcpStream = match s { Ok(s) => s, Err(_) => break };
+            let (log, reply, cfg) = (log.clone(), reply.clone(), cfg.clone());
+            std::thread::spawn(move || {
+                s.set_read_timeout(Some(std::time::Duration::from_millis(3000))).ok();
+                let raw = match read_request(&mut s) { Some(r) => r, None => return };
+                if !raw.starts_with(b"CONNECT ") {
+                    let req = decode_request(&raw);
+                    let out = reply(&req, false);
+                    log.lock().unwrap().push(Hop { connect_head: None, sni: None, req: Some(req), clear_after_connect: vec![] });
+                    s.write_all(&out).ok(); s.shutdown(std::net::Shutdown::Write).ok();
+                    return;
+                }
+                let connect_head = String::from_utf8_lossy(&raw).to_string();
+                // what the client writes before it has our answer is still in the clear: nothing may arrive
+                s.set_read_timeout(Some(std::time::Duration::from_millis(150))).ok();
+                let mut early = [0u8; 256]; let clear = match s.read(&mut early) { Ok(n) => early[..n].to_vec(), Err(_) => vec![] };
+                s.set_read_timeout(Some(std::time::Duration::from_millis(3000))).ok();
+                if !clear.is_empty() { log.lock().unwrap().push(Hop { connect_head: Some(connect_head), sni: None, req: None, clear_after_connect: clear }); return; }
+                s.write_all(b"HTTP/1.1 200 Connection established\r\n\r\n").ok();
+                let mut tls = rustls::StreamOwned::new(rustls::ServerConnection::new(cfg).unwrap(), s);
+                let inner = read_request(&mut tls);
+                let sni = tls.conn.server_name().map(|n| n.to_string());
+                let req = inner.as_deref().map(decode_request);
+                let out = req.as_ref().map(|r| reply(r, true));
+                log.lock().unwrap().push(Hop { connect_head: Some(connect_head), sni, req, clear_after_connect: vec![] });
+                if let Some(out) = out { tls.write_all(&out).ok(); tls.conn.send_close_notify(); tls.flush().ok(); }
+                tls.sock.shutdown(std::net::Shutdown::Write).ok();
+            });
+        }
+    });
+    port
+}
+
+/// C12: what travels where when an https URL is fetched through a proxy, observed on both sides of the tunnel: the proxy sees one
+/// CONNECT head (origin authority, Proxy-Authorization from the proxy URL's credentials) and nothing else in the clear; inside the
+/// TLS session the origin sees the caller's request - headers, credentials, body - and never the proxy's credentials, also when
+/// the tunnelled request is a redirect hop that follows proxied plain-http hops; the TLS session names the origin, not the proxy
+#[test]
+fn vp_native_tunnel_interior() {
+    let mut cases = 0u64;
+    for creds in [true, false] { for first_hop in ["https", "http-then-https", "https-then-https"] { for body in [None, Some("topsecret-body")] {
+        let log: Arc<Mutex<Vec<Hop>>> = Arc::new(Mutex::new(Vec::new()));
+        let proxy = serve_tunnelling_proxy(log.clone(), move |req, tunnelled| {
+            if req.target.ends_with("/start") { resp(307, Some("https://localhost:9443/final?x=1"), "") }
+            else { resp(200, None, if tunnelled { "inside" } else { "clear" }) } });
+        let purl = if creds { format!("http://pu:pw@127.0.0.1:{}", proxy) } else { format!("http://127.0.0.1:{}", proxy) };
+        let mut s = crate::Session::new();
+        s.proxy_settings(crate::ProxySettings::builder().http_proxy(Url::parse(&purl).unwrap()).https_proxy(Url::parse(&purl).unwrap()).build());
+        s.danger_accept_invalid_certs(true);
+        let start = match first_hop { "https" => "https://localhost:9443/final?x=1", "http-then-https" => "http://plain.test/start", _ => "https://localhost:8443/start" };
+        let b = (if body.is_some() { s.post(start) } else { s.get(start) }).header("Authorization", "Bearer caller-token").header("X-Caller", "caller-header");
+        let res = match body { Some(t) => b.text(t).send(), None => b.send() };
+        cases += 1;
+        let ctx = format!("start {} proxy credentials {} body {:?}", start, creds, body);
+        let hops = log.lock().unwrap().clone();
+        let r = res.unwrap_or_else(|e| panic!("{}: {} (hops {:?})", ctx, e, hops));
+        assert_eq!(r.status().as_u16(), 200, "{}", ctx);
+        assert_eq!(r.url().as_str(), "https://localhost:9443/final?x=1", "{}", ctx);
+        assert_eq!(r.text().unwrap(), "inside", "{}", ctx);
+        assert_eq!(hops.len(), if first_hop == "https" { 1 } else { 2 }, "{}: {:?}", ctx, hops);
+        let pa = format!("basic {}", b64(b"pu:pw")).to_ascii_lowercase();
+        for h in &hops {
+            assert!(h.clear_after_connect.is_empty(), "{}: {} bytes written to the proxy in the clear before its answer to CONNECT", ctx, h.clear_after_connect.len());
+            if let Some(ch) = &h.connect_head {
+                let lower = ch.to_ascii_lowercase();
+                let authority = if h.req.as_ref().map_or(false, |r| r.target.ends_with("/start")) { "localhost:8443" } else { "localhost:9443" };
+                assert!(ch.starts_with(&format!("CONNECT {} HTTP/1.1\r\n", authority)), "{}: CONNECT names the origin host and port: {:?}", ctx, ch);
+                for leak in ["caller-token", "caller-header", "topsecret-body", "/final", "/start", "x=1"] { assert!(!lower.contains(leak), "{}: {:?} written to the proxy in the clear: {:?}", ctx, leak, ch); }
+                assert_eq!(lower.contains(&format!("proxy-authorization: {}", pa)), creds, "{}: Proxy-Authorization on CONNECT iff the proxy URL has credentials: {:?}", ctx, ch);
+                assert_eq!(h.sni.as_deref(), Some("localhost"), "{}: the TLS session is for the origin's name", ctx);
+                let inner = h.req.as_ref().unwrap_or_else(|| panic!("{}: no request inside the tunnel", ctx));
+                assert!(header(inner, "proxy-authorization").is_empty(), "{}: proxy credentials inside the tunnel: {:?}", ctx, inner.headers);
+                assert!(!inner.headers.iter().any(|(_, v)| String::from_utf8_lossy(v).to_ascii_lowercase().contains(&b64(b"pu:pw").to_ascii_lowercase())), "{}: proxy credentials inside the tunnel: {:?}", ctx, inner.headers);
+                assert_eq!(header(inner, "authorization"), vec![&b"Bearer caller-token"[..]], "{}: the caller's credentials reach the origin", ctx);
+                assert_eq!(header(inner, "x-caller"), vec![&b"caller-header"[..]], "{}", ctx);
+                assert_eq!(inner.body, body.unwrap_or("").as_bytes(), "{}: the body reaches the origin", ctx);
+                assert!(inner.target.starts_with('/'), "{}: origin-form inside the tunnel: {:?}", ctx, inner.target);
+            }
+        }
+        assert!(hops.last().unwrap().connect_head.is_some(), "{}: the https hop is tunnelled", ctx);
+    } } }
+    println!("VP-NATIVE tunnel_interior cases={}", cases);
+}
+
 /// C05: whatever a proxy sends after refusing CONNECT, at most 10 KiB of it are kept in the error
 #[test]
 fn vp_native_connect_refusal_body_cap() {
